@@ -134,6 +134,15 @@ func Value(r *mon.Rand, depth int) any {
 		return v
 	}
 	if depth <= 1 && r.Intn(400) == 0 {
+		// an array-valued parameter with several thousand elements
+		n := mon.Pick(r, 4097, 5000, 20000)
+		a := make([]any, n)
+		for j := range a {
+			a[j] = int64(j & 0xff)
+		}
+		return a
+	}
+	if depth <= 1 && r.Intn(400) == 0 {
 		// a map-valued parameter with more than a thousand entries
 		m := make(map[any]any, 1100)
 		for j := 0; j < 1100; j++ {
